@@ -893,6 +893,63 @@ def _cg_strong_finding(env):
     return res
 
 
+def _generalized_blocked(env, rng):
+    """2x2 GeneralizedBlockedOperator of scaled sparse identities with domain spaces [DP0, P1] and dual spaces [P1, DP0] on the
+    octahedron: the first block of each row is not square.  Everything is compared with the block matrix built from the
+    weak forms of the individual operators."""
+    import numpy as np
+    api = env.api
+    res = Result()
+    sp = env.spaces["oct"]
+    dp0, p1 = sp["DP0"], sp["P1"]
+    ident = api.operators.boundary.sparse.identity
+    sc = [[2.0, -1.5], [1.0, 0.75]]
+    doms, duals = [dp0, p1], [p1, dp0]
+    ops = [[sc[i][j] * ident(doms[j], duals[i], duals[i]) for j in range(2)] for i in range(2)]
+    A = api.GeneralizedBlockedOperator(ops)
+    W = np.block([[np.asarray(ops[i][j].weak_form().to_dense()) for j in range(2)] for i in range(2)])
+    cond = float(np.linalg.cond(W))
+    nd = [d.global_dof_count for d in doms]
+    nt = [d.global_dof_count for d in duals]
+    res.case(("generalized-blocked", tuple(nd), tuple(nt)), nontrivial=True,
+             sample=dict(kind="generalized blocked 2x2, non-square blocks", domain_dofs=nd, dual_dofs=nt, cond=cond))
+    x = np.array([rng.uniform(-1, 1) for _ in range(sum(nd))]) + 1j * np.array([rng.uniform(-1, 1) for _ in range(sum(nd))])
+    wf = A.weak_form()
+
+    def rel(a, b):
+        return float(np.max(np.abs(np.asarray(a) - np.asarray(b)))) / max(1e-300, float(np.max(np.abs(b))))
+    what = []
+    e = rel(wf.to_dense(), W)
+    if e > 1e-13:
+        what.append(f"to_dense differs from the block matrix by {e:.2e}")
+    e = rel(wf @ x, W @ x)
+    if e > 1e-12:
+        what.append(f"weak_form() @ x differs from (block matrix) @ x by {e:.2e}")
+    X3 = np.stack([x, x.conj(), 1j * x], axis=1)
+    e = rel(wf @ X3, W @ X3)
+    if e > 1e-12:
+        what.append(f"weak_form() @ X (three columns) differs from (block matrix) @ X by {e:.2e}")
+    if cond < 1e8:
+        fs = [api.GridFunction(doms[0], coefficients=x[:nd[0]]), api.GridFunction(doms[1], coefficients=x[nd[0]:])]
+        b = A * fs
+        pb = np.concatenate([g.projections(duals[i]) for i, g in enumerate(b)])
+        e = rel(pb, W @ x)
+        if e > 1e-12:
+            what.append(f"projections of A*f differ from (block matrix) @ coefficients by {e:.2e}")
+        bl = [api.GridFunction(duals[i], projections=(W @ x)[sum(nt[:i]):sum(nt[:i + 1])], dual_space=duals[i]) for i in range(2)]
+        for label, solve in (("lu", lambda: api.lu(A, bl)), ("gmres", lambda: api.gmres(A, bl, tol=1e-12)[0])):
+            sol = solve()
+            got = np.concatenate([g.coefficients for g in sol])
+            e = rel(got, x)
+            if e > (1e-9 if label == "lu" else 1e-9 * cond):
+                what.append(f"{label}(A, b) differs from the solution of the stated system by {e:.2e} (cond {cond:.1f})")
+    if what:
+        res.counterexample("generalized-blocked-operator", "GeneralizedBlockedOperator with non-square blocks (domain spaces "
+                           f"[DP0, P1], dual spaces [P1, DP0], dofs {nd} / {nt}): " + "; ".join(what), domain_dofs=nd,
+                           dual_dofs=nt, cond=cond)
+    return res
+
+
 def oracle(ctx, deep=False):
     import warnings
     res = Result()
@@ -1127,6 +1184,14 @@ def oracle(ctx, deep=False):
                     if len(r2) != 2 or r2[1] != 0 or not spaces_ok(sysm, r2[0]):
                         res.counterexample(f"{routine}-defaults", f"{routine} with default arguments: tuple length {len(r2)}, "
                                            f"info {r2[1]} for {name} strong={strong}", system=sysm.structure())
+    # generalized blocked operators (arrays of operators with NON-SQUARE blocks): to_dense, matvec, A*f, lu and gmres against
+    # the matrix assembled block by block (seeded change C15-c advanced the column offset of
+    # GeneralizedDiscreteBlockedOperator._matmat by the row count of a block)
+    try:
+        res.merge(_generalized_blocked(env, rng))
+    except Exception as e:  # noqa
+        res.counterexample("generalized-blocked-raises", f"solving with a GeneralizedBlockedOperator raises "
+                           f"{type(e).__name__}: {e}")
     # recorded finding: CG with use_strong_form=True hands SciPy's cg the matrix M^-1 W, which is not symmetric when the
     # element areas differ.  ONE fixed, seed-independent input; reported only while it actually fails.
     try:
